@@ -743,6 +743,7 @@ fn head_of_line(p: &Params, seed: u64) -> HistResult {
         h.op_complete(id, true);
     }
     let rounds = 10 * n + 10;
+    let mut quiet_done = false;
     for _ in 0..rounds {
         let wk = h.last_waker;
         let r = h.poll(wk);
@@ -758,6 +759,15 @@ fn head_of_line(p: &Params, seed: u64) -> HistResult {
         }
         if n == 1 {
             h.flags.hol_stall = true;
+        }
+        if h.flags.hol_stall && !quiet_done && r == Last::Pending {
+            // the stalled state itself must be quiet: head pending, everything behind it
+            // finished and parked, the limit reached - nobody wakes anything
+            quiet_done = true;
+            h.op_quiet();
+            if w.has_violation() || h.subj.is_none() {
+                return finish_result(h);
+            }
         }
         if r == Last::Pending && !w.task_invoked_since(wk, h.last_start) {
             if h.rng.chance(1, 3) {
